@@ -40,7 +40,7 @@ POWERS = ([["int", n] for n in range(-3, 4)] +
           # the denominator of a pair / Fraction exponent may carry the sign
           # other numeric types of the same exponents
           [["pyfrac", 1, 2], ["pyfrac", 3, 2], ["pyfrac", -1, 3], ["pyfrac", 2, 1], ["np32", 1, 2], ["np32", 3, 2], ["np32", -1, 4],
-           ["np32", 2, 1], ["np16", 3, 2], ["np16", 1, 2]] +
+           ["np32", 2, 1], ["np16", 3, 2], ["np16", 1, 2], ["np0d", 1, 2], ["np0d", 3, 2], ["np0d", 2, 1], ["np0d", -1, 4]] +
           [["pair", 1, -2], ["pair", -1, -2], ["pair", 3, -4], ["pair", -3, -2], ["frac", -1, -2], ["frac", 1, -3]])
 
 
@@ -290,6 +290,8 @@ def _power_value(p):
         return np.float32(p[1] / p[2]), F(p[1], p[2])       # exactly representable: halves and quarters
     if k == "np16":
         return np.float16(p[1] / p[2]), F(p[1], p[2])
+    if k == "np0d":
+        return np.array(p[1] / p[2]), F(p[1], p[2])          # a 0-d numpy array (what np.asarray(0.5) or arr.mean() gives)
     return p[1] / p[2], F(p[1], p[2])
 
 
